@@ -4,7 +4,8 @@
    (identifier vs state), C12 (padding); here: once a rule is broken, a message of its family appears at the offending offset. *)
 From Coq Require Import List NArith Bool.
 From FP Require Import Model.Base Model.ItsWords Model.ItsFsm Model.Rdh Model.RdhChecks Model.Payload Model.CdpRunning Model.Scanner Model.Link Model.Collector.
-From FP Require Import Spec.WordLayout Proofs.Bits Proofs.C02_proofs Proofs.C04_stave Proofs.C02_total Proofs.C02_cdw.
+From FP Require Import Spec.WordLayout Spec.Grammar Spec.GrammarIts Proofs.Bits Proofs.C02_proofs Proofs.C04_stave Proofs.C02_total Proofs.C02_cdw Proofs.C01_rdh Proofs.C01_its Proofs.C02_insync.
+From FP Require Proofs.C07_proofs.
 From FP Require Gen.Facts.
 Import ListNotations.
 Open Scope N_scope.
@@ -94,6 +95,49 @@ Theorem C02_cdw_elsewhere_is_invalid_data : forall c s w, is_data_res (snd (adva
              sw_cdw (cs_words s1) = sw_cdw (cs_words s).
 Proof. exact c02_cdw_elsewhere. Qed.
 
+(* ---- faults INSIDE a conforming stream (C01 and the theorems above, composed) ----
+   A link (any placement of its packets: the offsets are those of the packets) that conforms to the ITS grammar up to some data or
+   TDT position: complete heartbeat frames hbfs1, then in frame h the pages pgs1, then on page pg the IHW, the trigger packets
+   items1, the TDH t of the next one and its data words d1 -- and from there on ANY word w, ANY words `rest` behind it (each ten
+   bytes, not ending in 0xFF: findings F12/F13 are about those), ANY packets ps2 after that page.  Then the validator (`check
+   sanity its` and `check all its`) reaches w in a data state sk, at the true offset of w  --  packet offset + 64 + index * slot  --
+   having reported nothing before, and the messages it has for w open the report and are never retracted. *)
+Theorem C02_in_sync_position : forall ld, wf_link_rdh ld = true -> l_system ld = Gen.Facts.its_system_id -> (l_format ld = 0 \/ l_format ld = 2) ->
+  forall running hbfs1 ihs1 h hbfs2 pgs1 pg pgs2 ips1 ihw items1 i items2 pad0 ips2 t e d1 d2 w rest pad ps1 p ps2,
+    l_hbfs ld = hbfs1 ++ h :: hbfs2 -> Forall2 (its_hbf_ok (l_format ld)) hbfs1 ihs1 ->
+    h_pages h = pgs1 ++ pg :: pgs2 ->
+    pages_ok h true None (ips1 ++ {| ip_ihw := ihw; ip_items := items1 ++ i :: items2; ip_pad := pad0 |} :: ips2) ->
+    map pg_payload pgs1 = map (fun q => layout (l_format ld) (page_words q) (ip_pad q)) ips1 ->
+    item_data i = Some (t, d1 ++ d2, e) -> Forall gw (w :: rest) -> (pad <= 15)%nat ->
+    pg_payload pg = layout (l_format ld) ((ihw :: flat_map item_words items1 ++ t :: d1) ++ w :: rest) pad ->
+    map strip ps1 = flat_map (render_hbf ld) hbfs1 ++ render_pages ld h 0 pgs1 ->
+    strip p = (render_rdh ld h (N.of_nat (length pgs1)) 0 pg, pg_payload pg) ->
+    N.of_nat (S (length (flat_map item_words items1 ++ t :: d1))) < 65535 ->
+    c_off p + 64 + N.of_nat (S (length (flat_map item_words items1 ++ t :: d1))) * 16 < 18446744073709551616 ->
+    exists sk f,
+      St sk f (c_rdh p) (Some ihw) (Some t) /\ is_data_state f = true /\
+      pos_of sk = C07_proofs.wpos (c_off p + 64) (10 + C07_proofs.pad_of (c_rdh p)) (S (length (flat_map item_words items1 ++ t :: d1))) /\
+      exists out more, run_validator (its_cfg running) (ps1 ++ p :: ps2) = Ok out /\ out = word_msgs (its_cfg running) sk w ++ more.
+Proof. exact (c02_insync_link (conj eq_refl (conj eq_refl eq_refl))). Qed.
+
+(* ... and what w draws there, by fault class (for every state sk of that kind, every configuration): a TDT-identified word that breaks
+   a TDT rule: [E50] at the word; an identifier that is no data word, no TDT, no CDW: [E991] at the word *)
+Theorem C02_in_sync_tdt_fault : forall c sk f r ihw t w more, St sk f r ihw t -> is_data_state f = true ->
+  nb 9 w = Gen.Facts.tdt_id -> tdt_sanity w <> [] -> has_err (pos_of sk) 50 (word_msgs c sk w ++ more).
+Proof. exact (insync_tdt_fault (conj eq_refl (conj eq_refl eq_refl))). Qed.
+Theorem C02_in_sync_unknown_identifier : forall c sk f r ihw t w more, St sk f r ihw t -> is_data_state f = true ->
+  data_pat_id (nb 9 w) = false -> nb 9 w <> Gen.Facts.tdt_id -> nb 9 w <> Gen.Facts.cdw_id ->
+  has_err (pos_of sk) 991 (word_msgs c sk w ++ more).
+Proof. exact (insync_unknown_id (conj eq_refl (conj eq_refl eq_refl))). Qed.
+(* the hypotheses are satisfiable: the example link of C01 with the closing TDT of a packet continued over three pages replaced by a
+   TDT-identified word with a reserved bit set (third page of the second heartbeat frame, offset 4096 + 64 + 2 * 10), junk behind it *)
+Theorem C02_in_sync_example : forall running ps2, exists sk f,
+  St sk f (c_rdh ExampleF.pF) (Some C01_its.Example.ihw) (Some (C01_its.Example.tdh C01_its.Example.CONT 9 11)) /\ is_data_state f = true /\
+  pos_of sk = 4096 + 64 + 20 /\
+  exists out more, run_validator (its_cfg running) (ExampleF.ps1 ++ ExampleF.pF :: ps2) = Ok out /\
+                   out = word_msgs (its_cfg running) sk ExampleF.badtdt ++ more.
+Proof. exact (ExampleF.example_insync (conj eq_refl (conj eq_refl eq_refl))). Qed.
+
 (* any reported error selects the configured exit status *)
 Theorem C02_exit : forall n, exit_code (Some n) Init_ok true = n.
 Proof. exact c02_exit. Qed.
@@ -118,4 +162,8 @@ Print Assumptions C02_tdh_must_not_continue_after_complete_packet.
 Print Assumptions C02_cdw_layout.
 Print Assumptions C02_cdw_rule.
 Print Assumptions C02_cdw_elsewhere_is_invalid_data.
+Print Assumptions C02_in_sync_position.
+Print Assumptions C02_in_sync_tdt_fault.
+Print Assumptions C02_in_sync_unknown_identifier.
+Print Assumptions C02_in_sync_example.
 Print Assumptions C02_exit.
